@@ -78,12 +78,18 @@ func cmdWorker(args []string) {
 	all := fs.Bool("all-solvers", false, "")
 	par := fs.Int("par", 4, "")
 	short := fs.String("short", "", "regexp of stable obligation names that get a 4 s timeout (known findings)")
+	sweep := fs.String("nopanic", "", "comma separated functions verified as a no-panic sweep")
 	fs.StringVar(&onlySplit, "split", "", "")
 	fs.Parse(args)
 	v, err := loadVerifier(*repo, *ext)
 	if err != nil {
 		fmt.Fprintln(os.Stderr, "ENGINE-FAULT load:", err)
 		os.Exit(2)
+	}
+	for _, k := range strings.Split(*sweep, ",") {
+		if k = strings.TrimSpace(k); k != "" {
+			v.enableNoPanic(k)
+		}
 	}
 	queryDir, _ = os.MkdirTemp("", "vcgo-w-")
 	defer os.RemoveAll(queryDir)
@@ -226,6 +232,64 @@ func verifyShared(v *Verifier, repo, root, key, tier string, timeout int, all bo
 			os.Remove(o)
 		}
 		os.WriteFile(cf, b, 0o644)
+	}
+	return recs, nil
+}
+
+// verifyParallel spreads functions over worker processes (largest first is unknown, so round-robin).
+func verifyParallel(repo, root string, keys, sweep []string, timeout int, all bool, short string) ([]FuncRecord, error) {
+	nw := 8
+	if len(keys) < nw {
+		nw = len(keys)
+	}
+	groups := make([][]string, nw)
+	for i, k := range keys {
+		groups[i%nw] = append(groups[i%nw], k)
+	}
+	self, _ := os.Executable()
+	var mu sync.Mutex
+	byKey := map[string][]FuncRecord{}
+	var firstErr error
+	var wg sync.WaitGroup
+	for _, g := range groups {
+		wg.Add(1)
+		go func(g []string) {
+			defer wg.Done()
+			args := []string{"worker", "-repo", repo, "-extern", filepath.Join(root, "contracts", "extern"), "-timeout", fmt.Sprint(timeout), "-par", fmt.Sprint(16/nw + 1)}
+			if all {
+				args = append(args, "-all-solvers")
+			}
+			if short != "" {
+				args = append(args, "-short", short)
+			}
+			if len(sweep) > 0 {
+				args = append(args, "-nopanic", strings.Join(sweep, ","))
+			}
+			args = append(args, g...)
+			cmd := exec.Command(self, args...)
+			cmd.Stderr = os.Stderr
+			out, err := cmd.Output()
+			var rs []FuncRecord
+			if err == nil {
+				err = json.Unmarshal(out, &rs)
+			}
+			mu.Lock()
+			defer mu.Unlock()
+			if err != nil && firstErr == nil {
+				firstErr = fmt.Errorf("worker for %v: %v", g, err)
+			}
+			for _, r := range rs {
+				byKey[r.Key] = append(byKey[r.Key], r)
+			}
+		}(g)
+	}
+	wg.Wait()
+	if firstErr != nil {
+		return nil, firstErr
+	}
+	var recs []FuncRecord
+	for _, k := range keys {
+		recs = append(recs, byKey[k]...)
 	}
 	return recs, nil
 }
